@@ -577,11 +577,10 @@ class STRINGN(StringDataType):
     def encode(cls, value: str, char_size: int = 1) -> bytes:
         try:
             encoding = cls.ENCODINGS[char_size]
-            return (
-                UINT.encode(char_size)
-                + UINT.encode(len(value))
-                + value.encode(encoding)
-            )
+            data = value.encode(encoding)
+            if len(data) != len(value) * char_size:
+                raise ValueError(f"characters do not all fit in {char_size} byte(s)")
+            return UINT.encode(char_size) + UINT.encode(len(value)) + data
         except Exception as err:
             raise DataError(
                 f"Error encoding {value!r} as STRINGN using char. size {char_size}"
